@@ -535,6 +535,17 @@ def replay(run, path):
     elif 'steps' in c:
         g = T.build([tuple(s) for s in c['steps']], c.get('gmeta'))
         why = by_lag_predicate(g)
+    elif 'matrix' in c and 'dtype' in c:
+        arr = numpy.array(c['matrix'])
+        if c['dtype']:
+            arr = arr.astype(c['dtype'])
+        cls = CausalGraph if c['kind'] == 'Plain' else TimeSeriesCausalGraph
+        try:
+            g = cls.from_adjacency_matrix(arr, c['names'], validate=c.get('validate', True))
+            why = entry_clause(g, c['matrix'], c['names'])
+        except Exception as e:  # noqa: BLE001
+            why = None
+            print('from_adjacency_matrix raised', type(e).__name__)
     else:
         why = '; '.join(malformed_refused()) or None
     print('predicate:', why)
